@@ -164,12 +164,13 @@ func CheckIncoming(stored, incoming *Item) error {
 		return ErrSequenceNumberLessThanCurrent
 	}
 
-	// Cas should be ignored if not present
-	if stored.Cas == 0 {
+	// Cas should be ignored if not present. If present it names the sequence number of the item
+	// being overwritten.
+	if incoming.Cas == 0 {
 		return nil
 	}
 
-	if stored.Cas != incoming.Cas {
+	if stored.Seq != incoming.Cas {
 		return ErrCasHashMismatched
 	}
 
